@@ -28,6 +28,21 @@ func NewIndividualCompare(comparison *gedcom.IndividualComparison, filterFlags *
 	}
 }
 
+// newCompareOptions returns options for comparing the relatives of the
+// individuals. A single IndividualNodesCompareOptions must be created for each
+// comparison: it carries the state of that comparison (which individuals have
+// been matched already) and several of these comparisons run at the same time.
+func (c *IndividualCompare) newCompareOptions() *gedcom.IndividualNodesCompareOptions {
+	options := gedcom.NewIndividualNodesCompareOptions()
+
+	if c.compareOptions != nil {
+		options.SimilarityOptions = c.compareOptions.SimilarityOptions
+		options.Jobs = c.compareOptions.Jobs
+	}
+
+	return options
+}
+
 func (c *IndividualCompare) appendChildren(nd *gedcom.NodeDiff, prefix string) []core.Component {
 	title := prefix + nd.Tag().String()
 	tableRows := []core.Component{}
@@ -145,7 +160,7 @@ func (c *IndividualCompare) writeHTMLTo(w io.Writer) (int64, error) {
 		}
 	}
 
-	for _, parents := range leftParents.Compare(rightParents, c.compareOptions) {
+	for _, parents := range leftParents.Compare(rightParents, c.newCompareOptions()) {
 		var row *DiffRow
 		name := "Parent"
 
@@ -173,7 +188,7 @@ func (c *IndividualCompare) writeHTMLTo(w io.Writer) (int64, error) {
 	// Spouses
 	switch {
 	case !gedcom.IsNil(left) && !gedcom.IsNil(right):
-		for _, spouse := range left.Spouses().Compare(right.Spouses(), c.compareOptions) {
+		for _, spouse := range left.Spouses().Compare(right.Spouses(), c.newCompareOptions()) {
 			nodeDiff := &gedcom.NodeDiff{}
 
 			if spouse.Left != nil {
